@@ -391,6 +391,14 @@ def gen_pipeline_cfg(seed, big=False):
                  f"--with-ph={rng.choice([1.0, 2.5, 4.0, 7.0, 9.5, 11.0, 13.0])}"]
     if ff == "PARSE" and rng.random() < 0.3:
         argv.append(rng.choice(["--neutraln", "--neutralc"]))
+    if rng.random() < 0.08:
+        lig = {"1US0.pdb": "1US0-ligand.mol2", "1QBS.pdb": "1QBS-ligand.mol2"}.get(
+            item, "ethanol.mol2")
+        cfg["lig_het"] = lig
+        cfg["files"] = {"ligand": lig}
+        argv.append("--ligand={ligand}")
+    if rng.random() < 0.2 and nres >= 6:
+        cfg["chains"] = rng.sample(["A", "B", "C", "X", "a", "1"], 2)
     cfg["argv"] = argv
     return cfg
 
